@@ -27,7 +27,7 @@ def run(ck):
     if not core.ensure_built(ck):
         return ck.finish(**FINISH)
     quick = ck.tier == "quick"
-    stats, mism = idecorr.run_streams(["sem", "grammar", "inc"], 100 if quick else 1200, seed=ck.seed + 17)
+    stats, mism = idecorr.run_streams(["sem", "grammar", "inc", "odd"], 100 if quick else 1200, seed=ck.seed + 17)
     for s, st in stats.items():
         ck.count("model-" + s, st["cases"], set(range(st["agree"])), queries=st["queries"], model_disagreements=st["mismatch"])
     for m in mism[:3]:
